@@ -191,6 +191,34 @@ func MW[K comparable, V any](m map[K]V, site int32) {
 	}
 }
 
+// W2 is W for a true write (assignment, ++, delete) to the package-level variable numbered
+// gvar: besides being a scheduling point, a variable written by two tasks of one run with no
+// lock held is reported like a shared map.
+func W2(site int, gvar int) {
+	if len(tasks) > 0 && tasks[cur].lockDept == 0 {
+		r, ok := gvOwner[gvar]
+		if !ok {
+			if gvOwner == nil {
+				gvOwner = map[int]mwRec{}
+			}
+			gvOwner[gvar] = mwRec{cur, int32(site)}
+		} else if r.task != cur {
+			dup := false
+			for _, c := range MapConflicts {
+				if c.SiteA == r.site && c.SiteB == int32(site) {
+					dup = true
+				}
+			}
+			if !dup && len(MapConflicts) < 32 {
+				MapConflicts = append(MapConflicts, MapConflict{r.site, int32(site), r.task, cur})
+			}
+		}
+	}
+	W(site)
+}
+
+var gvOwner map[int]mwRec
+
 // PW is called after writes through a field, a slice element or a dereference in the packages
 // whose objects renders may share (rewriter: trackedDir). Same rule as MW, per address.
 func PW[T any](ptr *T, site int32) {
@@ -507,7 +535,7 @@ func Reset(p OrderPlan, stepBudget uint64, nSites int) {
 		siteMode[s] = ModeCanon
 	}
 	registry = map[unsafe.Pointer]uint64{}
-	MapConflicts, mwOwner, mwPins = nil, nil, nil
+	MapConflicts, mwOwner, mwPins, gvOwner = nil, nil, nil, nil
 	nextID = 0
 	Unregistered = 0
 	SiteStats = map[int]*SiteStat{}
